@@ -47,7 +47,7 @@ RULE = ("every set of 1-3 distinct strict orders over 3 alternatives (dynamic pr
         "same number of removed alternatives (identical certificates are counted in the distribution). Volume for the "
         "dynamic programme (no ILP, no brute force): 3000 (thorough 12000) strict profiles with 7-10 alternatives "
         "(ids from 0, sparse, large), 2-6 votes, impartial culture / perturbed single-peaked: certificate + size = "
-        "mirror; plus 300 (1500) profiles with 7 alternatives against the verified reference min_alt_del; plus 200 (2000) "
+        "mirror; plus 300 (1500) profiles with 7 alternatives against the verified reference min_alt_del; plus 200 (1000) "
         "profiles with 11-15 alternatives. On EVERY strict profile (2-15 alternatives) the number of alternatives "
         "removed by k_alternative_deletion and the objective of the alternative-deletion ILP are compared with the "
         "exact optimum computed by the fast verified reference c12.fast_min_alt (fast_min_alt_correct: = min_alt_del)")
@@ -351,7 +351,7 @@ def generate(tier, seed):
         prof = impartial_culture(rng, alts, n) if fam == "ic" else perturbed_sp(rng, alts, n)
         out.append(mk(alts, prof, F_DP, 0, family="volume-" + fam, volume=1))
     # ---- larger: 11-15 alternatives (the property stops below 20), 3-6 votes; exact optimum by c12.fast_min_alt
-    for i in range(200 if not thorough else 2000):
+    for i in range(200 if not thorough else 1000):
         m = rng.randint(11, 15)
         alts = rand_ids(rng, m)
         n = rng.randint(3, 6)
